@@ -127,6 +127,7 @@ class MasterSim(object):
         self.app_order = []
         self.alloc_loaded = []     # allocations as last loaded by a master
         self.bl_loaded = []        # application blacklist, likewise
+        self.arrival = {}          # instance -> order of first load by this master
         self.groups = {}
         self.groups_loaded = {}
         self.strict_integrity = False
@@ -205,6 +206,19 @@ class MasterSim(object):
                 sim.decl_servers.pop(servername, None)
             return res
 
+        orig_load_app = loader_mod.Loader.load_app
+
+        def load_app(this, appname, *args, **kwargs):
+            res = orig_load_app(this, appname, *args, **kwargs)
+            # arrival order = the order in which this master first loaded
+            # the instances (first come, first served)
+            if this is sim.master and appname not in sim.arrival and \
+                    appname in this.cell.apps:
+                sim.arrival[appname] = len(sim.arrival)
+            return res
+
+        loader_mod.Loader.load_app = load_app
+
         orig_allocs = loader_mod.Loader.load_allocations
 
         def load_allocations(this):
@@ -255,6 +269,7 @@ class MasterSim(object):
             (loader_mod.Loader, 'load_server', orig_load),
             (loader_mod.Loader, 'remove_server', orig_remove),
             (loader_mod.Loader, 'load_allocations', orig_allocs),
+            (loader_mod.Loader, 'load_app', orig_load_app),
         ]
         loader_mod.Loader.load_server = load_server
         loader_mod.Loader.remove_server = remove_server
@@ -414,6 +429,7 @@ class MasterSim(object):
         self.decl_servers = {}
         self.alloc_loaded = []
         self.groups_loaded = {}
+        self.arrival = {}
         self.master = master_mod.Master(backend, 'cell')
         self.outstanding = None
         self.triggers = []
@@ -959,6 +975,11 @@ class MasterSim(object):
     def op_cellev(self, pod_idx, insert):
         pods = sorted({'pod:%d' % i for i in range(len(self.case['topo']))})
         pod = pods[pod_idx % len(pods)]
+        outside = [name for name in pods
+                   if not self.admin.exists(z.path.cell(name))]
+        if insert and outside:
+            # aim: a bucket that was taken out of the cell comes back
+            pod = outside[pod_idx % len(outside)]
         self.tick()
         if insert:
             if self.admin.exists(z.path.cell(pod)):
